@@ -30,6 +30,7 @@ def run(ctx):
     ctx.each(optalg.required_total, ctx, repo, "R14h")
     ctx.each(optalg.evaluation_pipeline, ctx, repo, "R14i")
     ctx.each(r14j, ctx, repo)
+    ctx.each(r14k, ctx, repo)
     from . import c15
     from .c08 import engines as _eng
 
@@ -356,3 +357,18 @@ def r14j(ctx, repo):
         ex = [s for s in own_nodes(fi.node) if isinstance(s, ast.Assign) and astq.is_name(s.targets[0], nm) and isinstance(s.value, ast.BinOp) and isinstance(s.value.op, ast.Mult)]
         for s in ex:
             ctx.check(ast.unparse(s.value) in ("%s * len(%s.t)" % (nm, me), "len(%s.t) * %s" % (me, nm)), "R14j", fi, s, "a single %s bound is repeated once per year" % nm, "`%s` does not repeat the single value once per year" % norm(s))
+
+
+def r14k(ctx, repo):
+    ctx.rule("R14k", "every constrained year goes through the bounded projection: in TotalSpendConstraint.constrain_instructions the call of constrain_sum_bounded, and the loop that writes the constrained values back, are executed on every iteration of the loop over the constrained years - no `continue`, early exit or guard in front of them (a proposal whose total already looks right may still break a bound, and 'looks right' to isclose's default tolerance is not the 1e-6 the total has to be met to)")
+    fi = repo.func("optimization", "TotalSpendConstraint.constrain_instructions")
+    loops = [l for l in fi.node.body if isinstance(l, ast.For) and "initial_total_spend" in ast.unparse(l.iter)]
+    ctx.require(len(loops) == 1, "R14k: the loop over the constrained years was not found in TotalSpendConstraint.constrain_instructions")
+    lp = loops[0]
+    calls = [c for c in ast.walk(lp) if isinstance(c, ast.Call) and ast.unparse(c.func) == "constrain_sum_bounded"]
+    ctx.require(len(calls) == 1, "R14k: expected one call of constrain_sum_bounded in the loop over years, found %d" % len(calls))
+    st = enclosing_stmt(calls[0])
+    g = guards_of(st, stop=lp)
+    ctx.check(not g and any(st is s_ for s_ in lp.body), "R14k", fi, st, "the projection runs for every constrained year", "`%s` is only reached when %s: for the other years the proposal is written back without being projected into the bounds and onto the total" % (norm(st)[:70], " and ".join(("" if p else "not ") + "`%s`" % ast.unparse(t)[:60] for t, p in g) or "a nested condition holds"), stmt_text="projection-unconditional")
+    wb = [l for l in lp.body if isinstance(l, ast.For) and isinstance(st, ast.Assign) and any(isinstance(x, ast.Name) and x.id == st.targets[0].id for x in ast.walk(l.iter))]
+    ctx.check(len(wb) == 1 and not guards_of(wb[0], stop=lp) and wb[0].lineno > st.lineno, "R14k", fi, wb[0] if wb else lp, "the projected values are written back for every constrained year", "the loop that writes the projected values back into the instructions is missing, conditional, or runs before the projection", stmt_text="writeback-unconditional")
